@@ -56,8 +56,12 @@ def cases(tier):
         cs.append(p2(r, 6 if q else 12, 900 if q else 3000))
     for cls in range(12):
         cs.append(p3(cls, 12, 900 if q else 3000))
+    # full-width nondecimal literals (#H + up to 16 hex digits) through every reader whose type they fit
     cs.append(p2(4, 12, 900 if q else 3000, hexonly=True))
-    cs.append(p2(3, 12, 900 if q else 3000, hexonly=True))
+    cs.append(p2(3, 18, 900 if q else 3000, hexonly=True))
+    cs.append(p2(2, 18, 900 if q else 3000, hexonly=True))
+    cs.append(p2(1, 10, 900 if q else 3000, hexonly=True))
+    cs.append(p2(0, 10, 900 if q else 3000, hexonly=True))
     cs.append(p3s(900 if q else 3000))
     return cs
 
